@@ -1052,6 +1052,8 @@ func main() {
 	ctx.Extra("slow-reader", slowOut.extras)
 	record(ctx, stormOut)
 	ctx.Extra("tunnel-storm", stormOut.extras)
+	// 5. tunnel-half-reset stage (oracle-only, in-process servers, after the loaded stages)
+	halfResetStage(ctx)
 	for i, o := range outs {
 		record(ctx, o)
 		kind := "ledger"
